@@ -112,13 +112,12 @@ def _has_fact(fact: str, text: str) -> bool:
 def check_sites(rep: Report, rel: str):
     rels = [rel] if rel.endswith('.py') else rep.repo.py_files(rel)
     for r in rels:
-        tree = rep.repo.tree(r)
-        for n in ast.walk(tree):
-            if isinstance(n, ast.Call) and isinstance(n.func, ast.Attribute) and n.func.attr in CHECKS:
-                fn = enclosing_function(n)
-                if fn is None:
-                    continue
-                yield r, fn, n
+        # functions in normal form: a loop over a table of attribute names is one check per row
+        for _cls, fn in rep.repo.expanded_functions(r):
+            for n in ast.walk(fn):
+                if isinstance(n, ast.Call) and isinstance(n.func, ast.Attribute) and n.func.attr in CHECKS:
+                    inner = enclosing_function(n)
+                    yield r, (inner if inner is not None else fn), n
 
 
 def r18_1_2(rep: Report) -> None:
